@@ -499,6 +499,10 @@ impl Ctx {
                         max_shrink_iters: 50_000,
                         // minimisation budget per worker (not a verdict: the unshrunk case already failed)
                         max_shrink_time: 120_000,
+                        // prop_flat_map strategies re-generate their inner value whenever shrinking
+                        // steps back (`complicate`), by default up to a million times per run -
+                        // minutes of work after the shrinking budget has already run out
+                        max_flat_map_regens: 2_000,
                         max_global_rejects: 100_000,
                         ..Config::default()
                     };
